@@ -11,7 +11,7 @@ import (
 func init() {
 	Register(&Prop{
 		ID: "C11", Bubble: true, Run: runC11, QuickRuns: 1500,
-		ExpectedProbes: []string{"release_with_two_or_more_waiting", "release_checked", "late_caller_barged_in", "release_with_concurrent_arrival"},
+		ExpectedProbes: []string{"release_with_two_or_more_waiting", "release_checked", "late_caller_barged_in", "release_with_concurrent_arrival", "partitioned_release_with_two_or_more_waiting", "partitioned_head_refused_nobody_served"},
 		Rule: "one run = one way of constructing a queue limiter (FromConfig with FIFO / LIFO / empty ordering, WithDefaults, the deprecated Lifo/Fifo constructors with and without defaults, FixedPool and Pool with FIFO/LIFO), limit 1..2, 2..6 waiters whose arrival order is fixed by running each arrival to a stable point, then a seeded sequence of releases, backlog timeouts (distinct arrival instants on the virtual clock) and cancellations; " +
 			"oracle: after each release the caller that returns granted is the oldest (FIFO) / newest (LIFO) among those still waiting in a reference list; " +
 			"non-trivial = at least one release happened with two or more callers waiting; distinct = distinct (constructor, arrival pattern, action sequence, grants) hashes",
@@ -24,11 +24,16 @@ func init() {
 
 func runC11(r *Run) {
 	t := r.T
+	if t.Chance(15, "partitioned-delegate") {
+		runC11Partitioned(r)
+		return
+	}
 	var c StackCfg
 	ctor := t.Intn(12, "ctor")
 	c.Strategy = []string{"simple", "precise"}[t.Intn(2, "strategy")]
 	c.Limit = 1 + t.Intn(2, "limit")
 	c.Backlog = 10
+	c.DebugLog = t.Chance(25, "debug-logger")
 	// waiters arrive 1 ms apart; timeout chosen so that some expire during the run
 	c.Timeout = []time.Duration{time.Hour, 4 * ms, 6 * ms, 9 * ms}[t.Intn(4, "timeout")]
 	switch ctor {
